@@ -81,7 +81,7 @@ CHECKS = {
 
  "C10": dict(cat="model_checking", design="5 C10",
    text="Editor.tla models the public editing operations (add/remove target, version, delegate_role from targets or from a delegated role, sign_targets_editor, change_delegated_targets, sign) with exactly the success condition of each call, and the client's verification of the result; TLC checks SignedLoads for all programs of up to 5 operations. Every program of up to 4 operations that ends in sign - generated with the threshold check switched off, so that programs the editor must refuse are tried too - is executed with the real RepositoryEditor, written, published (copy and symlink), loaded back through an HTTP-like transport and through file:// URLs, every target downloaded, the client's view compared with the model's, and snapshot/timestamp compared with the written files (version, length, SHA-256). EditorX.tla enumerates the cross-party cases (threshold, versions, signer sets incl. foreign keys and double signatures) for update_delegated_targets. Lifecycle.tla adds the command level: tuftool create / update / transfer-metadata / clone / download and a client with a persistent datastore as actions over the published, cloned and downloaded directories (TLC: UpdateKeeps, CloneFaithful, ClientMonotone, MonotonePublisherServes, ...); simulated behaviours spread over the command kinds are run through the tuftool binary built from the working tree, the directories are inspected independently after every command and the property predicate is evaluated on what was observed. DelegCli.tla models the tuftool delegation workflow (create-role, add-role, update-delegated-targets, add-key, remove-key, remove, update --role) as a protocol between the owner and role holders over staging directories (TLC: PublishedLoads, IncorporatedMeansAuthorized, PathsHold, RoleVersionsMonotone, 450 k states at 8 commands); behaviours of three plan families are run through the tuftool binary, the published repository is parsed and its signatures re-verified independently and loaded with a fresh client after every command.",
-   note="Trusted: TLC, signer-set abstraction. Programs up to 4 operations over 2 targets / 2 delegated roles exhaustively (thorough) - the 25-operation / 60-target scale of the property text is not reached. F14 is a recorded finding.",
+   note="Trusted: TLC, signer-set abstraction. Programs up to 4 operations over 2 targets / 2 delegated roles exhaustively (thorough), plus 400 simulated programs of 12..25 operations over 3 targets in the thorough tier; the 60-target scale of the property text is not reached. F14 is a recorded finding.",
    technique="TLA+ model of the editor API (TLC exhaustive) + replay of every program through the real editor and client + Lifecycle.tla / DelegCli.tla command-level models with replay through the tuftool binary"),
  "C17": dict(cat="model_checking", design="5 C17",
    text="EditorUpdate.tla enumerates every repository shape (unknown top-level members in targets/snapshot/timestamp and in delegated roles, custom data, a delegated role, a second-level role) x 0..2 added targets and states what from_repo + sign must carry over; each case is built by the harness's own writers, passed through RepositoryEditor::from_repo / sign / write, and the written JSON is compared with the input member by member (delegated file identical, its signature re-verified). Lifecycle.tla adds the command level: tuftool create / update / transfer-metadata / clone / download and a client with a persistent datastore as actions over the published, cloned and downloaded directories (TLC: UpdateKeeps, CloneFaithful, ClientMonotone, MonotonePublisherServes, ...); simulated behaviours spread over the command kinds are run through the tuftool binary built from the working tree, the directories are inspected independently after every command and the property predicate is evaluated on what was observed.",
